@@ -75,3 +75,37 @@ def check(chk):
                               "%s no longer reaches %s (%s): the rule is not enforced at these positions" % (caller, missing, why))
             else:
                 chk.ok("G-CALL", key + "#" + fn["qn"][-40:], {"caller": caller, "reaches": need})
+
+
+# rules the library or the generated text needs (or SBE states) that must have an enforcing site in the validator;
+# `any_of` = functions one of which an enforcing implementation has to reach from the named validator function
+REQUIRED_RULES = [
+    ("header-members-unsigned", "sbe_schema_validator::validate_level_header_element", ["is_unsigned_primitive_type", "is_integral_type"],
+     "blockLength / numInGroup / length / header fields must be (unsigned) integers: the library applies std::make_signed and "
+     "integer arithmetic to them (a float numInGroup is accepted today and the header does not compile)"),
+    ("enum-values-unique", "sbe_schema_validator::validate_valid_values", ["add_or_throw", "count", "find", "insert", "emplace", "try_emplace", "contains"],
+     "validValue *values* must be unique: tag_invoke emits one `case` per validValue (duplicate case value does not compile)"),
+    ("offset-plus-size-bounded", "sbe_schema_validator::validate_field_offset", ["max", "add_overflow", "checked_add"],
+     "offset + size is computed in uint64 without an overflow / upper-bound test (offset=18446744073709551615 wraps and is accepted)"),
+]
+
+
+def check_required_rules(chk):
+    f = gen.facts()
+    fns = gen.sbeppc_functions(f)
+    by_key = {fn["key"]: fn for fn in f["functions"] if fn.get("body") is not None and fn.get("key")}
+    by_short = {}
+    for fn in fns:
+        by_short.setdefault(gguard.short_fn(fn), []).append(fn)
+    for key, where_fn, any_of, why in REQUIRED_RULES:
+        lst = by_short.get(where_fn)
+        if not lst:
+            chk.broke("G-REQ: %s not found" % where_fn)
+            continue
+        cs = set()
+        for fn in lst:
+            cs |= callees(fn, by_key)
+        if any(a in cs for a in any_of):
+            chk.ok("G-REQ", key, {"enforced_in": where_fn})
+        else:
+            chk.violation("G-REQ", key, "%s:%s" % (rel(lst[0]["file"]), lst[0]["line"]), "missing validator rule: " + why)
